@@ -535,6 +535,7 @@ NEST = [
     ('bottlegrowth_2d', 'nuB nuF T', 'bottlegrowth_split', 'nuB nuF T 0'),
     ('bottlegrowth_split', 'nuB nuF T Ts', 'bottlegrowth_split_mig', 'nuB nuF 0 T Ts'),
     ('bottlegrowth_2d', 'nuB nuF T', 'bottlegrowth_split_mig', 'nuB nuF m T 0'),
+    ('bottlegrowth_split_mig', 'nuB nuF m 0 Ts', 'split_mig', '1 1 Ts m'),
     # ---- Portik 2-D
     ('no_mig', 'nu1 nu2 T', 'sym_mig', 'nu1 nu2 0 T'),
     ('sym_mig', 'nu1 nu2 m T', 'asym_mig', 'nu1 nu2 m m T'),
@@ -718,6 +719,8 @@ NEST = [
     ('bottlegrowth_split_mig_sel_single_gamma', 'nuB nuF m T Ts gamma', 'bottlegrowth_split_mig_sel',
      'nuB nuF m T Ts gamma gamma'),
     ('bottlegrowth_split_mig_sel', 'nuB nuF m T Ts 0 0', 'bottlegrowth_split_mig', 'nuB nuF m T Ts'),
+    # zero-length growth epoch after the split (T = 0 < Ts): only the split-with-migration phase at the ancestral size remains
+    ('bottlegrowth_split_mig_sel', 'nuB nuF m 0 Ts gamma1 gamma2', 'split_mig_sel', '1 1 Ts m gamma1 gamma2'),
 ]
 
 META['bounds']['quick'] = META['bounds']['quick'] % len(NEST)
